@@ -30,6 +30,13 @@ func init() {
 			t.EditByPath([]int{0, 1}, []int{0, 1}, &json.TreeNode{Type: "text", Value: letter(v)}, 0)
 		}
 	})
+	// after the second character of the first element (behind a character that
+	// an earlier tr.insT1 of the same client put there)
+	reg("tr.insT2", func(r *json.Object, _ *document.Presence, v int) {
+		if t := tree(r); t != nil && len(tkids(t)) > 0 && tkids(t)[0].Len() >= 2 {
+			t.EditByPath([]int{0, 2}, []int{0, 2}, &json.TreeNode{Type: "text", Value: letter(v)}, 0)
+		}
+	})
 	reg("tr.insTE", func(r *json.Object, _ *document.Presence, v int) {
 		if t := tree(r); t != nil && len(tkids(t)) > 0 {
 			k := tkids(t)
